@@ -11,6 +11,7 @@ EXTENDS TraceLib, CfgUpdateI
 CfgLine == TraceLog[1]
 PathsT == DOMAIN CfgLine.cat
 CatT == CfgLine.cat
+InertT == {CfgLine.inert[i] : i \in 1..Len(CfgLine.inert)}
 SeqSet(s) == {s[i] : i \in 1..Len(s)}
 
 VARIABLE l
